@@ -222,8 +222,9 @@ pub fn run(ctx: &Ctx) -> ! {
     }
     sessions.extend(pack(ctx.seed, gworlds, 400));
     let before = ev.worlds;
-    for chunk in sessions.chunks(400) {
-        if ctx.out_of_time() {
+    for (ci, chunk) in sessions.chunks(400).enumerate() {
+        // the first chunk always runs; later ones only while the budget lasts
+        if ci > 0 && ctx.out_of_time() {
             break;
         }
         let _ = run_and_judge(ctx, "c04", chunk, &mut rep, &mut ev, false);
